@@ -189,3 +189,33 @@ fn nf_roundtrip_keys() {
     }}}
     go!(ml_dsa_44); go!(ml_dsa_65); go!(ml_dsa_87);
 }
+
+// C09: every byte string of public-key length deserialises successfully and serialises back to identical bytes (structured extremes)
+macro_rules! pk_total_for {
+    ($m:ident, $t:expr) => {{
+        use crate::$m as M;
+        let mut cases: Vec<[u8; M::PK_LEN]> = Vec::new();
+        cases.push([0u8; M::PK_LEN]);
+        cases.push([0xFFu8; M::PK_LEN]);
+        let mut a = [0u8; M::PK_LEN];
+        for (i, b) in a.iter_mut().enumerate() { *b = (i as u8).wrapping_mul(37).wrapping_add(11); }
+        cases.push(a);
+        let mut z = a; for b in z[32..].iter_mut() { *b = 0; }          // arbitrary seed, t1 = 0
+        cases.push(z);
+        let mut o = [0u8; M::PK_LEN]; o[32] = 1;                           // a single non-zero t1 coefficient
+        cases.push(o);
+        for (ci, c) in cases.iter().enumerate() {
+            let pk = M::PublicKey::try_from_bytes(*c);
+            assert!(pk.is_ok(), "public-key byte string #{} rejected by try_from_bytes ({})", ci, $t);
+            let back = pk.unwrap().into_bytes();
+            assert!(back == *c, "public-key byte string #{} does not serialise back to itself ({})", ci, $t);
+        }
+    }};
+}
+#[test]
+fn nf_pk_total() {
+    use crate::traits::SerDes;
+    pk_total_for!(ml_dsa_44, "ml_dsa_44");
+    pk_total_for!(ml_dsa_65, "ml_dsa_65");
+    pk_total_for!(ml_dsa_87, "ml_dsa_87");
+}
